@@ -432,7 +432,7 @@ impl PartialOrd for Num {
             Option::None
         } else if self == other {
             Option::Some(Ordering::Equal)
-        } else if &self.up * &other.down < &self.down * &other.down {
+        } else if &self.up * &other.down < &self.down * &other.up {
             Option::Some(Ordering::Less)
         } else {
             Option::Some(Ordering::Greater)
